@@ -56,6 +56,8 @@ def e2e_overlay(ctx):
     ov.update(ctx.harness_overlay(pkg, "harness/C15_dispatchcloud"))
     ov.update({k: v for k, v in ctx.harness_overlay("lib/dispatchcloud/test", "harness/C14_test").items()
                if "zz_verif_vio" not in k})
+    ov.update({k: v for k, v in ctx.harness_overlay("lib/dispatchcloud/worker", "harness/C15_worker").items()
+               if "zz_verif_vio" not in k})
     return ov
 
 
@@ -78,6 +80,12 @@ def drop_infra(ctx, events, label):
 def run_e2e(ctx, scns, label="e2e"):
     events, out = ctx.go_run_driver("lib/dispatchcloud", e2e_overlay(ctx), "TestVerifC14E2E$", scns, timeout=2400)
     return drop_infra(ctx, events, label)
+
+
+def run_probe_race(ctx):
+    """Scripted schedule (real scheduler + real pool + scripted VM): a probe answer older than a container start."""
+    events, out = ctx.go_run_driver("lib/dispatchcloud", e2e_overlay(ctx), "TestVerifC14ProbeRace$", [], timeout=600)
+    return drop_infra(ctx, events, "proberace")
 
 
 def S(a, c=0, w=0, x=""):
@@ -175,6 +183,10 @@ def run(ctx):
         rl = ctx.tlc(SD, "Dispatch", "MC_Dispatch_list_kf.cfg", timeout=3000, must_pass=False,
                      label="why the threshold must be taken before the call: threshold after the call => second process")
         ctx.extra["design_level_counterexample_threshold_after_list"] = bool(rl.violated)
+        rp = ctx.tlc(SD, "Dispatch", "MC_Dispatch_probe_kf.cfg", timeout=3000, must_pass=False,
+                     label="why probeAndUpdate compares wkr.updated: discarding only while a start is pending => second process")
+        ctx.extra["design_level_counterexample_stale_probe"] = bool(rp.violated)
+        ctx.tlc(SD, "Dispatch", "MC_Dispatch_quota.cfg", timeout=3000, label="1 x 2, a Create answered with a quota error, hold-off: refinement")
         r = ctx.tlc(SD, "Dispatch", "MC_Dispatch_kf.cfg", timeout=3000, must_pass=False,
                     label="expected counterexample: restart + StaleLockTimeout with an unknown worker (no exclusion)")
         ctx.extra["design_level_counterexample_fixStaleLocks"] = bool(r.violated)
@@ -240,6 +252,9 @@ def run(ctx):
     if only == "i":
         e2e = e2e[:1]
     ev2 = run_e2e(ctx, e2e)
+    if only != "i":
+        ev2 += run_probe_race(ctx)
+        e2e.append({"id": 9201, "n": 1, "script": "probe answer taken before a start, returned after it"})
     tr2 = vlib.split_traces(ev2)
     maxw = max([e.get("w", 0) for e in ev2] + [w for e in ev2 for w in e.get("bad", []) + e.get("others", [])] + [0])
     maxc = max(s["n"] for s in e2e)
